@@ -191,7 +191,11 @@ def main():
         packcheck.TOOLS.update(tools)
         if cr.replay:
             img = os.path.join(cr.replay, "image.sqfs")
-            r = run_tool([exe, img, os.path.join(cr.replay, "ops.txt"), "enum", "3", "0", "99"], timeout=600)
+            try:
+                mode = json.load(open(os.path.join(cr.replay, "case.json")))["mode"][0]
+            except Exception:
+                mode = "enum"
+            r = run_tool([exe, img, os.path.join(cr.replay, "ops.txt"), mode if mode in ("enum", "reload") else "enum", "3", "0", "99"], timeout=600)
             print(r.out.decode(), r.err.decode("latin1")[-2000:])
             return 1
         depth = 3 if cr.quick else 4
@@ -239,7 +243,15 @@ def main():
             open(of, "w").write("\n".join(ops) + "\n")
             mf = os.path.join(sd, name + ".mops")
             open(mf, "w").write("\n".join(mops) + "\n")
-            meta[name] = dict(ops=ops, mops=mops, image=ip, opsf=of, mopsf=mf)
+            # table reloads between queries: the data / xattr / id queries of the alphabet plus every (table, variant) reload
+            rops = [o for o in ops if o.split()[0] in ("read", "block", "frag", "stream", "xattr", "xwalk", "id")] + \
+                   ["reload %d %d" % (tb, var) for tb in range(3) for var in range(5)]
+            rf = os.path.join(sd, name + ".rops")
+            open(rf, "w").write("\n".join(rops) + "\n")
+            meta[name] = dict(ops=ops, mops=mops, rops=rops, image=ip, opsf=of, mopsf=mf)
+            rdepth = 4 if (not cr.quick and name in ("v1-gensquashfs-gzip", "v3-mkimg")) else 3
+            for first in range(len(rops)):
+                jobs.append((exe, ip, rf, ["reload", str(rdepth), str(first), str(first + 1)], name))
             d = depth if (not name.startswith("d") or not cr.quick) else min(depth, 3)
             for first in range(len(ops)):
                 jobs.append((exe, ip, of, ["enum", str(d), str(first), str(first + 1)], name))
@@ -267,6 +279,8 @@ def main():
                 fm = j["first_mismatch"]
                 last = fm["history"][-1].split()[0] if fm.get("history") else "?"
                 kind = "agree" if mode == "agree" else ("meta-reader" if mode == "bfs" else last)
+                if mode == "reload":
+                    kind = "reload-history:" + last
                 # which earlier op poisoned it: the op before the last one
                 prev = fm["history"][-2].split()[0] if len(fm.get("history", [])) >= 2 else "-"
                 cr.violation("C10|history-dependent|%s after %s|%s" % (kind, prev, "damaged" if name.startswith("d") else "valid"),
